@@ -29,10 +29,10 @@
 
 """Class related to the construction of study campaigns."""
 import copy
+import dill
 from hashlib import md5
 import logging
 import os
-import pickle
 import re
 from types import MethodType
 import yaml
@@ -274,7 +274,10 @@ class Study(DAG, PickleInterface):
         create_parentdir(path)
         path = os.path.join(path, "env.pkl")
         with open(path, 'wb') as pkl:
-            pickle.dump(self, pkl)
+            # The same serializer as the hand-off (PickleInterface): the
+            # standard pickle module rejects studies whose custom parameter
+            # generator file defines its own classes or functions.
+            dill.dump(self, pkl)
 
         # Construct other metadata related to study construction.
         _workspaces = {}
@@ -333,7 +336,7 @@ class Study(DAG, PickleInterface):
 
         path = os.path.join(self._meta_path, "study", "env.pkl")
         with open(path, 'rb') as pkl:
-            env = pickle.load(pkl)
+            env = dill.load(pkl)
 
         if not isinstance(env, type(self)):
             msg = "Object loaded from {path} is of type {type}. Expected an" \
